@@ -2111,10 +2111,65 @@ func (c *BytecodeCompiler) compileBreakExpressionNode(node *ast.BreakExpressionN
 
 	jumpOffsetId := c.emitLoadValue(value.Undefined, location)
 	c.offsetValueIds = append(c.offsetValueIds, jumpOffsetId)
-	c.addLoopJump(labelName, bytecodeBreakFinallyLoopJump, jumpOffsetId, location)
+	if !c.leavesUpvaluesOnBreak(labelName) {
+		c.addLoopJump(labelName, bytecodeBreakFinallyLoopJump, jumpOffsetId, location)
+
+		c.emitValue(value.SmallInt(finallyCount).ToValue(), location)
+		c.emit(location.StartPos.Line, bytecode.JUMP_TO_FINALLY)
+		return
+	}
 
 	c.emitValue(value.SmallInt(finallyCount).ToValue(), location)
 	c.emit(location.StartPos.Line, bytecode.JUMP_TO_FINALLY)
+
+	// the last `finally` jumps back here to close the upvalues of the scopes that are left
+	c.bytecode.Values[jumpOffsetId] = value.SmallInt(c.nextInstructionOffset()).ToValue()
+	c.leaveScopeOnBreak(location.StartPos.Line, labelName)
+	breakJumpOffset := c.emitJump(location.StartPos.Line, bytecode.JUMP)
+	c.addLoopJump(labelName, bytecodeBreakLoopJump, breakJumpOffset, location)
+}
+
+// Whether a `break` out of the loop with the given label leaves a scope with a local captured by a closure.
+func (c *BytecodeCompiler) leavesUpvaluesOnBreak(label string) bool {
+	for i := range c.scopes {
+		scope := c.scopes[len(c.scopes)-i-1]
+		for _, local := range scope.localTable {
+			if local.hasUpvalue {
+				return true
+			}
+		}
+
+		if label == "" {
+			if scope.typ == loopBytecodeScopeType {
+				break
+			}
+			continue
+		}
+
+		if scope.label == label {
+			break
+		}
+	}
+	return false
+}
+
+// Whether a `continue` in the loop with the given label leaves a scope with a local captured by a closure.
+func (c *BytecodeCompiler) leavesUpvaluesOnContinue(label string) bool {
+	for i := range c.scopes {
+		scope := c.scopes[len(c.scopes)-i-1]
+		if label == "" && scope.typ == loopBytecodeScopeType {
+			break
+		}
+		if label != "" && scope.label == label {
+			break
+		}
+		for _, local := range scope.localTable {
+			if local.hasUpvalue {
+				return true
+			}
+		}
+	}
+	return false
 }
 
 func (c *BytecodeCompiler) leaveScopeOnContinue(line int, label string) {
@@ -2176,10 +2231,22 @@ func (c *BytecodeCompiler) compileContinueExpressionNode(node *ast.ContinueExpre
 
 	jumpOffsetId := c.emitLoadValue(value.Undefined, location)
 	c.offsetValueIds = append(c.offsetValueIds, jumpOffsetId)
-	c.addLoopJump(labelName, bytecodeContinueFinallyLoopJump, jumpOffsetId, location)
+	if !c.leavesUpvaluesOnContinue(labelName) {
+		c.addLoopJump(labelName, bytecodeContinueFinallyLoopJump, jumpOffsetId, location)
+
+		c.emitValue(value.SmallInt(finallyCount).ToValue(), location)
+		c.emit(location.StartPos.Line, bytecode.JUMP_TO_FINALLY)
+		return
+	}
 
 	c.emitValue(value.SmallInt(finallyCount).ToValue(), location)
 	c.emit(location.StartPos.Line, bytecode.JUMP_TO_FINALLY)
+
+	// the last `finally` jumps back here to close the upvalues of the scopes that are left
+	c.bytecode.Values[jumpOffsetId] = value.SmallInt(c.nextInstructionOffset()).ToValue()
+	c.leaveScopeOnContinue(location.StartPos.Line, labelName)
+	continueJumpOffset := c.emitJump(location.StartPos.Line, bytecode.LOOP)
+	c.addLoopJumpTo(loop, bytecodeContinueLoopJump, continueJumpOffset)
 }
 
 // Patch loop jump addresses for `break` and `continue` expressions.
